@@ -243,7 +243,7 @@ def run_point(p: Dict[str, Any], verbose: bool = False) -> Tuple[Optional[Dict[s
     if problems:
         verdict = {"what": f"C17 {p}: {problems[0][:600]}", "replay": {"problems": problems[:5]},
                    "signature": {"check": problems[0].split(":")[0]}}
-    return verdict, obs, 1
+    return verdict, obs, w.loop.handles_run
 
 
 def run(tier: str, seed: int) -> Tuple[Stats, str, List[str], Dict[str, Any]]:
